@@ -169,9 +169,13 @@ func (p *C12) Gen(seed uint64, i int, tier string) *scen.Scenario {
 		sc.Sched = scen.SchedCfg{StayPermille: r.Range(300, 800)}
 		sc.Setup = append(sc.Setup, scen.Op{Op: "new_root", R: 2, Name: "bg", Named: true, Opts: []scen.Op{{Kind: "writer", W: 4, WK: "plain"}, {Kind: "errwriter", W: 4, WK: "plain"}, {Kind: "level", Lvl: model.Always}}})
 		bg := scen.Task{ID: 2}
+		bgPanics := r.Chance(1, 3)
 		for k := r.Range(2, 6); k > 0; k-- {
 			tk++
 			sev := scen.Pick(r, []int{model.Error, model.Warn, model.Info, model.Debug, model.Always, model.OK})
+			if bgPanics && r.Chance(1, 2) {
+				sev = model.Panic // a second terminating call, in flight at the same time as the cell's
+			}
 			bg.Ops = append(bg.Ops, scen.Op{Op: "log", L: 2, Entry: "LogAttrs", Lvl: sev, Msg: "o" + tok(tk), Tok: tok(tk), Args: []scen.Arg{
 				{K: "attr", Key: "y1", Y: true, Items: []scen.Arg{{K: "i", I: int64(k)}}}, {K: "attr", Key: "y2", Y: true, Items: []scen.Arg{{K: "i", I: int64(k)}}}}})
 		}
@@ -286,7 +290,7 @@ func (p *C12) WellFormed(sc *scen.Scenario) bool {
 				if sc.Tasks[ti].ID != 1 || i != 0 || len(sc.Tasks[ti].Ops) != 1 || !strings.Contains(op.Msg, op.Tok) {
 					return false
 				}
-			} else if op.L != 2 || op.Lvl == model.Panic || op.Lvl == model.Fatal {
+			} else if op.L != 2 || op.Lvl == model.Fatal || op.Entry != "LogAttrs" {
 				return false
 			}
 		}
@@ -347,7 +351,31 @@ func (p *C12) Check(sc *scen.Scenario, run *orch.Run, env *orch.Env) []orch.Viol
 				if t.Ops[i].Probe {
 					continue
 				}
-				if o := ops[opKey("task", t.ID, i+1)]; o != nil && o.Panic != nil {
+				o := ops[opKey("task", t.ID, i+1)]
+				if o == nil {
+					continue
+				}
+				if t.Ops[i].Lvl == model.Panic {
+					// a second terminating call (the other logger is at Always, so it is admitted): it must
+					// panic with its own message exactly when this process and these flags say so, whatever
+					// the cell's call is doing at that moment
+					noInt, always := false, false
+					for _, f := range sc.World.Flags {
+						noInt = noInt || f == "LnoInterrupt"
+						always = always || f == "Linterruptalways"
+					}
+					must := !noInt && (sc.World.Mode == "production" || always)
+					switch {
+					case must && o.Ended && o.Panic == nil:
+						add("C12.no-panic", where+" second-call", "a Panic call of another goroutine on another logger, made while the cell's call was in flight, returned normally")
+					case must && o.Panic != nil && o.Panic.S != t.Ops[i].Msg:
+						add("C12.panic-value", where+" second-call", "the other goroutine's Panic call gave %q, expected its own message %q", o.Panic.S, t.Ops[i].Msg)
+					case !must && o.Panic != nil:
+						add("C12.unexpected-panic", where+" second-call", "the other goroutine's Panic call must not terminate here, but panicked with %q", o.Panic.S)
+					}
+					continue
+				}
+				if o.Panic != nil {
 					add("C12.other-panic", "entry="+t.Ops[i].Entry+" concurrent", "%s at severity %s (another goroutine, another logger) panicked: %s", t.Ops[i].Entry, model.LevelName(t.Ops[i].Lvl), o.Panic.S)
 				}
 			}
